@@ -30,7 +30,7 @@ LEVEL_TEXT = ('Every element (Z = 0..118) and every ion charge listed for it is 
               'evaluation of the stated expression. The sweep is exhaustive over table rows and elements, so the only '
               'sampling is over process histories (quick: fresh and reloaded private table; thorough: also late, '
               'after-mutation and interleaved tables) and over Q.'
-              ' Added in round 5: every Cromer-Mann entry evaluated on a 70 000+ vector and a 351x200 image of its Q grid.')
+              ' Added in round 5: every Cromer-Mann entry evaluated on a 70 000+ vector and a 351x200 image of its Q grid. Added in round 8: f0 of isotopes and isotope ions (lightest, heaviest, D, T) in every charge state; every magnetic and Cromer-Mann function asked with eight dtypes, python ints, tuples, read-only / reversed / strided views and narrow numpy scalars on whole-number Q.')
 LEVEL_NOTE = ('Trusted: the regex reader pvmon/ref/ancillary.py, CPython float parsing and math.exp, the embedded strings / '
               'data file as specification (list position = Z for crystal structures, first numbered row for spin states).')
 SHARDS = {'quick': 2, 'thorough': 4}
